@@ -1,7 +1,7 @@
 CHECK = {
     "level": "exploration",
     "engine": "rtmp-session",
-    "technique": "runtime sequence-equality monitor over generated two-endpoint RTMP sessions on harness-owned segmenting transports; race detector for the concurrent variant",
+    "technique": "runtime sequence-equality monitor over generated two-endpoint RTMP sessions on harness-owned segmenting transports (incl. long sessions on one chunk stream and on all 62 addressable chunk streams); race detector for the concurrent variant",
     "level_text": "Held on the sessions observed: hundreds (quick) to tens of thousands (thorough) of generated sessions between two real Protocol endpoints after the library handshake, with Set Chunk Size announced at PRNG positions by either side, boundary payload lengths relative to the chunk size in effect, boundary timestamps, reads segmented down to 1 byte, immediate and batched reading, relay to a third endpoint, the first chunks of either side queued behind S2/C2 before the peer has read its handshake bytes, a quarter of the messages written through one reused message object, payloads that look like protocol data, every message object handed out by the reader kept and re-examined at the end of the session (aliasing), and a concurrent 4-goroutine variant under -race. Class counters show which (type x timestamp x length x chunk-size x segmentation) combinations were actually read back. Not a proof.",
     "level_note": "In-package test (sets the unexported stream id / chunk stream id); chunk stream ids 2..63 (the writer's range); payloads capped at 70 KB (1 MiB in 1/15 sessions, one 2^24-1 payload in quick); timestamps < 2^31; chunk sizes in [1, 2^31-1].",
     "parts": [
